@@ -91,6 +91,16 @@ def _mask_case(job):
                 if np.isfinite(v1) and not near(v3, -v1):
                     out.append(("volume does not flip sign with orientation",
                                 "%s vs %s" % (v3, v1)))
+                # fix_orientation chooses one of the two orientations: the
+                # result is the volume of the contour as given or reversed
+                for cc, nm in ((c, "as given"), (c[::-1], "reversed")):
+                    v4 = vol.get_volume(cc, cx * 0.34, cy * 0.34, 0.34,
+                                        fix_orientation=True)
+                    if np.isfinite(v1) and not (near(v4, v1)
+                                                or near(v4, -v1)):
+                        out.append(("volume with fix_orientation is neither "
+                                    "orientation's volume",
+                                    "%s contour: %s vs +-%s" % (nm, v4, v1)))
             except BaseException as exc:
                 out.append(("get_volume raises " + type(exc).__name__,
                             repr(exc)[:100]))
